@@ -248,11 +248,13 @@ def observe(case):
             res = [res]
         for s in res:
             obs["folds"].append(observe_split(s, data))
-    except (ValueError, TypeError, RuntimeError) as e:
-        if type(e).__name__ not in ERRS:
-            raise
-        obs["error"] = ERRS[type(e).__name__]
-        obs["msg"] = str(e)[:120]
+    except AssertionError:
+        raise
+    except Exception as e:
+        # documented rejections are ValueError / TypeError / RuntimeError themselves; anything else
+        # (including their library subclasses, e.g. pyarrow's ArrowTypeError) is class 9, which no input expects
+        obs["error"] = ERRS.get(type(e).__name__, 9)
+        obs["msg"] = f"{type(e).__name__}: {e}"[:160]
         obs["folds"] = []
     obs["draws"] = rec.log
     return obs
